@@ -153,9 +153,21 @@ theorem reads_flexSample (s : FlexSample) (h : fsOK s) :
   simp [interpMax, h1, h2, qFlexSample, qv]
 
 
+def dirOK : Option (List FlexSample) → Prop
+  | none => True
+  | some d => d.length < 65536 ∧ ∀ s ∈ d, fsOK s
+
 def flexOK (ix : Bytes → Nat) (pool : List Bytes) (f : Flex) : Prop :=
   strOK ix pool f.name ∧ f32 f.min ∧ f32 f.max ∧ f.mag.length < 32768 ∧ (∀ s ∈ f.mag, fsOK s) ∧
-  ∀ d, f.dir = some d → d.length < 65536 ∧ ∀ s ∈ d, fsOK s
+  dirOK f.dir
+
+instance (n : Nat) : Decidable (f32 n) := by unfold f32; infer_instance
+instance (s : FlexSample) : Decidable (fsOK s) := by unfold fsOK; infer_instance
+instance : (o : Option (List FlexSample)) → Decidable (dirOK o)
+  | none => isTrue trivial
+  | some d => by unfold dirOK; infer_instance
+instance (ix : Bytes → Nat) (pool : List Bytes) (f : Flex) : Decidable (flexOK ix pool f) := by
+  unfold flexOK; infer_instance
 
 theorem flexFlags_lt (a : Bool) (d : Bool) : bit a + 2 * bit d < 256 := by
   cases a <;> cases d <;> simp [bit]
@@ -179,7 +191,7 @@ theorem reads_flex {ix : Bytes → Nat} {pool : List Bytes} (f : Flex) (h : flex
     intro rest
     cases active <;> simp [encDir, Rd.bind, Rd.pure, bit, qFlex]
   | some d =>
-    obtain ⟨hdl, hds⟩ := hdir d rfl
+    obtain ⟨hdl, hds⟩ := hdir
     have hfl : (bit active + 2 * bit (some d).isSome) / 2 % 2 = 1 := by cases active <;> simp [bit]
     simp only [hfl, if_true, encDir]
     have hd := Reads.bind (f := fun dc => (rdList rdFlexSample dc).bind fun d => Rd.pure (some d))
@@ -200,6 +212,12 @@ def extraOK (ix : Bytes → Nat) (pool : List Bytes) : Extra → Prop
 def gdurOf : Extra → Nat
   | .gesture d => d
   | _ => 0
+
+instance (ix : Bytes → Nat) (pool : List Bytes) : (x : Extra) → Decidable (extraOK ix pool x)
+  | .plain _ => by unfold extraOK; infer_instance
+  | .gesture _ => by unfold extraOK; infer_instance
+  | .loop _ => by unfold extraOK; infer_instance
+  | .speak .. => by unfold extraOK; infer_instance
 
 theorem typeCode_le {ix : Bytes → Nat} {pool : List Bytes} {x : Extra} (h : extraOK ix pool x) :
     x.typeCode ≤ tMax := by
@@ -274,6 +292,14 @@ def eventOK (ix : Bytes → Nat) (pool : List Bytes) (e : Event) : Prop :=
   tagsOK ix pool e.rel ∧ tagsOK ix pool e.timing ∧ tagsOK ix pool e.absP ∧ tagsOK ix pool e.absS ∧
   relTagOK ix pool e.tagName e.tagWav ∧ e.flex.length < 256 ∧ ∀ f ∈ e.flex, flexOK ix pool f
 
+instance (r : List RampSample) : Decidable (rampOK r) := by unfold rampOK; infer_instance
+instance (ix : Bytes → Nat) (pool : List Bytes) (ts : List Tag) : Decidable (tagsOK ix pool ts) := by
+  unfold tagsOK; infer_instance
+instance (ix : Bytes → Nat) (pool : List Bytes) (a b : Option Bytes) : Decidable (relTagOK ix pool a b) := by
+  unfold relTagOK; infer_instance
+instance (ix : Bytes → Nat) (pool : List Bytes) (e : Event) : Decidable (eventOK ix pool e) := by
+  unfold eventOK; infer_instance
+
 /-- `Event` (all four classes): `parse_binary (export_binary e) = qEvent e`. -/
 theorem reads_event {ix : Bytes → Nat} {pool : List Bytes} (e : Event) (h : eventOK ix pool e) :
     Reads (rdEvent pool) (encEvent ix e) (qEvent e) := by
@@ -309,6 +335,9 @@ theorem reads_event {ix : Bytes → Nat} {pool : List Bytes} (e : Event) (h : ev
 def channelOK (ix : Bytes → Nat) (pool : List Bytes) (c : Channel) : Prop :=
   strOK ix pool c.name ∧ c.events.length < 256 ∧ ∀ e ∈ c.events, eventOK ix pool e
 
+instance (ix : Bytes → Nat) (pool : List Bytes) (c : Channel) : Decidable (channelOK ix pool c) := by
+  unfold channelOK; infer_instance
+
 theorem reads_channel {ix : Bytes → Nat} {pool : List Bytes} (c : Channel) (h : channelOK ix pool c) :
     Reads (rdChannel pool) (encChannel ix c) (qChannel c) := by
   obtain ⟨hn, hl, he⟩ := h
@@ -321,6 +350,9 @@ theorem reads_channel {ix : Bytes → Nat} {pool : List Bytes} (c : Channel) (h 
 
 def actorOK (ix : Bytes → Nat) (pool : List Bytes) (a : Actor) : Prop :=
   strOK ix pool a.name ∧ a.channels.length < 256 ∧ ∀ c ∈ a.channels, channelOK ix pool c
+
+instance (ix : Bytes → Nat) (pool : List Bytes) (a : Actor) : Decidable (actorOK ix pool a) := by
+  unfold actorOK; infer_instance
 
 theorem reads_actor {ix : Bytes → Nat} {pool : List Bytes} (a : Actor) (h : actorOK ix pool a) :
     Reads (rdActor pool) (encActor ix a) (qActor a) := by
@@ -338,6 +370,9 @@ members (event type, flags, caption type, interpolation), loop counts are signed
 def sceneOK (ix : Bytes → Nat) (pool : List Bytes) (s : Scene) : Prop :=
   s.crc < 4294967296 ∧ s.events.length < 256 ∧ (∀ e ∈ s.events, eventOK ix pool e) ∧
   s.actors.length < 256 ∧ (∀ a ∈ s.actors, actorOK ix pool a) ∧ rampOK s.ramp
+
+instance (ix : Bytes → Nat) (pool : List Bytes) (s : Scene) : Decidable (sceneOK ix pool s) := by
+  unfold sceneOK; infer_instance
 
 theorem reads_scene {ix : Bytes → Nat} {pool : List Bytes} (s : Scene) (h : sceneOK ix pool s) :
     Reads (rdScene pool) (encScene ix s) (quantScene s) := by
